@@ -89,6 +89,11 @@ else:
 exec(open(os.path.join(os.path.dirname(os.path.abspath(__file__)), 'c18_paths.py')).read())
 
 for v in ck.violations:
+    if v['witness'].get('graph_call') == 'find_weighted_path':
+        rep = Replay.call({**v['witness'], 'op': 'graph_weighted_path'})
+        v['native'] = rep
+        v['replayed'] = rep.get('violates')
+        continue
     if v['witness'].get('graph_call') == 'count_triangles':
         rep = Replay.call({**v['witness'], 'op': 'graph_triangles'})
         v['native'] = rep
